@@ -287,8 +287,9 @@ What the engine knows of a fan-out attempt is the join: its slots, the events it
 slot is registered when it is delivered), and whether the attempt is over (`dead`).  When a failure has been dealt with —
 the Retry / Catch of an enclosing Parallel / Map state took it, or the execution ended — `check_pending_results` tidies up:
 it cancels the Tasks and Waits of the attempts that are over (a cancellation reports back at once, as the error
-Task.Terminated, and acknowledges its event) and acknowledges the events held for them.  Attempts nested in *other* branches
-of a failed attempt are left alone: they run on, and what they finally deliver to the failed attempt is absorbed. -/
+Task.Terminated, and acknowledges its event) and acknowledges the events held for them; attempts nested in the branches
+of a failed attempt are gone through in the same way.  What an event still on its way, or a nested state about to be
+launched, finally delivers to an attempt that is over is dropped or absorbed. -/
 
 /-- the fan-out attempts an event belongs to, innermost first -/
 def evJids : EvKind → List Nat
@@ -330,9 +331,17 @@ what can be cancelled is (each cancellation acknowledges its event), then the ev
 `excl`: events the running handler acknowledges itself. -/
 def tidy (c : Cfg) (v : Vol) (owner : Option Nat) (excl : List Nat) : List Act × Vol :=
   let deadJs := v.joins.filter (·.dead)
-  let jids := (deadJs.map (·.jid)).foldl (fun acc x => insertSorted x acc) []
+  let deadIds := deadJs.map (·.jid)
+  -- an attempt nested (at any depth) in a branch of one that is over makes no further progress either: it is gone through
+  -- like the one that is over (the engine knows of it through the events it holds for it)
+  let nested := (c.evq.filter (fun m => m.unacked && plainVisit m.kind && evOwner m.kind == owner &&
+      ((evJids m.kind).drop 1).any (fun j => deadIds.contains j))).map (fun m => (evSlot m).1)
+  let jids := (deadIds ++ nested).foldl (fun acc x => insertSorted x acc) []
   let regs := (jids.flatMap (registered c owner)).filter (fun m => !excl.contains m.id)
   let ids := ((regs.filter (cancellable v)) ++ (regs.filter (fun m => !cancellable v m))).map (·.id)
+  -- (a nested attempt one of whose Tasks / Waits is cancelled is over from then on)
+  let newlyDead := ((regs.filter (cancellable v)).map (fun m => (evSlot m).1)).filter (fun j => !deadIds.contains j)
+  let v := { v with joins := markDead v.joins newlyDead.eraseDups }
   -- (crash-safe protocol: what the joins themselves still hold — events of nested joins, replies)
   let heldE := ((deadJs.flatMap (fun j => j.heldEv.map (·.2))).filter (fun e => !ids.contains e && !excl.contains e)).eraseDups
   let heldR := (deadJs.flatMap (·.heldRp)).eraseDups
